@@ -1,37 +1,39 @@
 #!/usr/bin/env python
-"""Bounded stand-in: brute-force check of the rl4co routing environments against independent problem-definition oracles.
+"""Bounded stand-in (C01 C02 C03 C05 C06): brute-force check of the rl4co routing environments against independent oracles.
 
 Envs (rl4co/envs/routing/*/env.py): TSP, ATSP, CVRP, CVRPTW, SDVRP, SVRP, OP, PCTSP, SPCTSP, PDP (free / forced depot start),
-mTSP (minmax, sum), MDCPDP (minsum, minmax, lateness, lateness_square; generator format and per-depot capacity format),
-MTVRP variants CVRP, OVRP, VRPB, VRPL, VRPTW, OVRPBLTW.
+mTSP (minmax, sum), MDCPDP (minsum, minmax, lateness, lateness_square; 1 and 2 depots; generator format capacity [B,1] and
+per-depot capacity), MTVRP variants CVRP, OVRP, VRPB, VRPL, VRPTW, OVRPBLTW.
 
 Method. For every instance ALL action sequences admitted by `action_mask` are enumerated from `reset` (level-by-level DFS
-frontier: every row of the stepped batch is the same instance in a different state; finished rows stay in the batch and get
-padding steps with the first offered action until the last row finishes). Sampled complete sequences are replayed at batch
-size 1 and in mixed batches of 2-3 different instances (padding after finishing). Oracles (classes VRP / Perm / MDCPDP below)
-are written from the problem definitions in float64 on the original instance data and never call the library.
+frontier: each row of the stepped batch is the same instance in a different state; finished rows stay in the batch and are
+padded with their first offered action until the last row finishes). Sampled complete sequences are replayed at batch size 1
+("solo") and in mixed batches of 2-3 different instances (padding after finishing). The oracles (classes VRP / Perm / MDCPDP)
+are float64 state machines written from the problem definitions on the original instance data; they never call the library.
 
-Clauses (name = "<prop>.<env>.<class>"):
- C01 infeasible-<why>     every completed mask-confined sequence is feasible per oracle (each customer once / demand fully
-                          served, load<=capacity, service start in window with waiting and depot reset, pickup before delivery,
-                          skill<=technician, OP length<=max_length, route limit, linehaul before backhaul, open routes, PCTSP
-                          prize>=1 or all visited, mTSP <= num_agents subtours, MDCPDP same vehicle / carry<=capacity).
- C02 dead-end, finished-row-no-action, finished-became-unfinished, step-bound, step-raises
-                          every reachable unfinished state offers an action; finished rows keep one and stay finished; episode
-                          length <= documented bound (n | 2n+1 | 2(n+loads)+1 | n+2 | n+agents-1 | n+techs | n+2*depots).
- C03 reward-at-done, reward-after-padding, reward-shape, reward-raises, replay-<solo|mixed>.reward
-                          env.get_reward(td, actions) == oracle objective (1e-4 relative), shape [batch].
- C05 exact-<fill|tw|len|prize>-hidden, feasible-hidden[-<class>], optimum-unreachable
-                          canonical set of mask-reachable solutions == brute-force set of all feasible solutions (oracle DFS over
-                          all sequences) modulo the documented pruning of consecutive depot visits; best mask reward == optimum.
+Clauses (name = "<prop>.<env>.<class>"; oracle in brackets):
+ C01 infeasible-<why>       every completed mask-confined sequence is feasible [oracle replay: each customer once / demand fully
+                            served, load<=capacity, service start within window with waiting and reset at the depot, pickup before
+                            delivery, skill<=technician, OP length incl. return<=max_length, route limit, linehaul before backhaul,
+                            open routes, PCTSP prize>=1 or all visited, mTSP<=num_agents subtours, MDCPDP same vehicle, carry<=cap]
+ C02 dead-end, finished-row-no-action, finished-became-unfinished, step-bound, step-raises[-on-padding], replay-*.done-mismatch
+                            every reachable unfinished state offers an action, finished rows keep one and stay finished, episode
+                            length <= bound [n | 2n+1 | 2(n+loads)+1 | n+2 | n+agents-1 | n+techs | n+2*depots]
+ C03 reward-at-done, reward-after-padding, reward-shape, reward-raises, replay-<solo|mixed>.reward*
+                            env.get_reward(td, actions) == oracle objective (1e-4 relative), shape [batch] [oracle objective: closed
+                            tour length, open routes not charged for the return, OP prize, PCTSP length+penalties of unvisited, SVRP
+                            cost-weighted length, mTSP longest / summed subtour, MDCPDP per-depot lengths / lateness]
+ C05 exact-<fill|tw|len|prize|skill>-hidden, feasible-hidden[-<class>], optimum-unreachable
+                            canonical set of mask-reachable solutions == set of ALL feasible solutions [oracle DFS over all action
+                            sequences] modulo the documented pruning of consecutive depot visits; best mask reward == optimum
  C06 rejects-mask-solution, rejects-feasible, accepts-<fault>, replay-*.rejects-feasible
-                          check_solution_validity accepts every mask-generated and every brute-force feasible solution (with and
-                          without final depot return) and raises for every single-edit corruption (delete / adjacent swap /
-                          substitute / insert) that the oracle classifies infeasible beyond 1e-3 (fault = dup, missing, cap, tw,
-                          prec, len, prize, skill, order).
-Tolerances: generator (float) instances: solutions whose tightest constraint slack is within 1e-5 are ambiguous and ignored by
-C05; hand-made instances use dyadic coordinates / integer data so equality is exact and a solution with slack 0 must be offered.
-Bound: see BOUND (built in main). KNOWN lists confirmed defects of the unchanged library (reported via rep.known).
+                            check_solution_validity accepts every mask-generated and every brute-force feasible solution (with and
+                            without final depot return) and raises for every single-edit corruption (delete / adjacent swap /
+                            substitute / insert) that the oracle classifies infeasible by more than 1e-3 [fault = dup, missing,
+                            missing-truncated, cap, tw, prec, depot, len, prize, skill, order]
+Tolerances: on generator (float) instances solutions whose tightest constraint slack is within 1e-5 are ambiguous and ignored by
+C05; hand-made instances use dyadic 3-4-5 grid coordinates / integer data, so equality is exact and a slack-0 solution must be offered.
+Bound: see `bound` in main (sizes, instances, seeds per tier). KNOWN lists confirmed defects of the unchanged library.
 """
 import math
 import os
@@ -58,15 +60,16 @@ def known(desc, *names):
 
 
 _MD = [f"mdcpdp-{m}-{d}depot" for m in ("minsum", "minmax", "lateness", "lateness_square") for d in (1, 2)]
-_MT = [f"mtvrp-{v}" for v in ("cvrp", "ovrp", "vrpb", "vrpl", "vrptw", "ovrpbltw")]
 _RW = ("reward-at-done", "replay-solo.reward", "replay-mixed.reward")
 known("checker sizes the tour from len(actions): a shorter permutation of 0..k-1 is accepted, e.g. actions [0,1,2] on 4 nodes (PDP: [1] on 1 pair)",
       *[f"C06.{e}.accepts-missing-truncated" for e in ("tsp", "atsp", "pdp", "pdp-forced")])
 known("SDVRP checker needs a depot visit: mask-generated single route [1,2,3] (total demand <= capacity) raises 'All demand must be satisfied'",
       *[f"C06.sdvrp.{c}:all-demand-must-be-satisfied" for c in ("rejects-mask-solution", "rejects-feasible", "replay-solo.rejects-feasible", "replay-mixed.rejects-feasible")])
-known("CVRPTW checker truncates arrival with .int(): depot(0,0) c1(3,.5) c2(0,4) window end 7, [1,2,0,3,0] arrives at c2 at 7.65, accepted", "C06.cvrptw.accepts-tw")
+known("CVRPTW checker truncates arrival with .int(): depot(0,0) c1(3,.5) c2(0,4) window end 7, [1,2,0,3,0] reaches c2 at 7.65, accepted", "C06.cvrptw.accepts-tw")
 known("CVRPTW checker reads the depot deadline of batch row 0 for all rows: batch [max_time 40, max_time 480] rejects valid rows",
       "C06.cvrptw.replay-mixed.rejects-feasible:vehicle-cannot-perform-service-and")
+known("SDVRP float32: demands 2,6,4 / capacity 12, single route [1,2,3] fills the vehicle exactly but leaves a residue 3e-8 at customer 3: not done, extra trip [1,2,3,0,3] forced",
+      "C01.sdvrp.infeasible-dup@thirds-12", "C05.sdvrp.exact-fill-hidden", "C05.sdvrp.optimum-unreachable@thirds-12")
 known("CVRP mask float32: demands 8,6,2,4 / capacity 20, after [1,2,3] customer 4 (exact fill) is masked (0.8000001+0.2 > 1)", "C05.cvrp.exact-fill-hidden")
 known("SVRP mask forbids leaving the depot idle: a technician that can serve someone cannot be skipped, cheaper solutions such as [0,1,2,0,3] are unreachable",
       "C05.svrp.feasible-hidden-skip-technician", "C05.svrp.optimum-unreachable", "C05.svrp.optimum-unreachable@skip-tech", "C05.svrp.optimum-unreachable@tech0-all")
@@ -74,51 +77,71 @@ known("SVRP checker never checks the segment after the last depot visit: techs [
 known("OP reset subtracts 1e-6 from max_length: a tour of length exactly max_length (grid tour 1.75) is masked", "C05.op.exact-len-hidden", "C05.op.optimum-unreachable@len-equality")
 known("mTSP minmax: a padding depot step after done re-adds the return leg; reward has shape () at batch size 1",
       "C03.mtsp-minmax.reward-after-padding", "C03.mtsp-minmax.replay-mixed.reward", "C03.mtsp-minmax.replay-solo.reward-shape")
-known("mTSP cost_type='sum': get_reward raises unless len(actions)==num_loc and otherwise returns the closed loop over the action list, not the sum of subtours",
+known("mTSP cost_type='sum': get_reward raises unless len(actions)==num_loc, else returns the closed loop over the action list instead of the sum of subtours",
       *[f"C03.mtsp-sum.{c}" for c in _RW + ("reward-raises", "replay-solo.reward-raises", "replay-mixed.reward-raises")])
-known("MDCPDP: final return leg missing at done; batched step lengths of all rows taken from row 0 ([B,1] vs [B] broadcast); current_depot never advances to a newly "
-      "started depot (lengths / capacity of the previous depot used)", *[f"C03.{e}.{c}{x}" for e in _MD for c in _RW for x in ("", "-last-return-leg-missing")])
-known("MDCPDP reward_mode='lateness_square' (documented) raises NotImplementedError", *[f"C03.{e}.{c}" for e in _MD if "square" in e for c in ("reward-raises", "replay-solo.reward-raises", "replay-mixed.reward-raises")])
+known("MDCPDP: final return leg missing at done; batched step lengths of all rows taken from row 0 ([B,1] vs [B] broadcast); current_depot never advances to a "
+      "newly started depot (lengths / capacity of the previous depot used)", *[f"C03.{e}.{c}{x}" for e in _MD for c in _RW for x in ("", "-last-return-leg-missing")])
+known("MDCPDP reward_mode='lateness_square' (documented) raises NotImplementedError",
+      *[f"C03.{e}.{c}" for e in _MD if "square" in e for c in ("reward-raises", "replay-solo.reward-raises", "replay-mixed.reward-raises")])
 known("MDCPDP infers num_depot from capacity.shape[-1] but the generator emits capacity [B,1]: with num_depot=2 the second depot is treated as a pickup "
       "(mask-confined [0,1,2,3] switches depot with an open route); with per-depot capacity the new depot's capacity is never used",
-      *[f"{c}.{e}.{x}" for e in _MD if "2depot" in e for c, x in (("C01", "infeasible-depot"), ("C05", "exact-fill-hidden"), ("C05", "feasible-hidden"), ("C05", "optimum-unreachable"),
-                                                                    ("C05", "optimum-unreachable@gen-format-cap1"), ("C05", "optimum-unreachable@per-depot-cap"))])
+      *[f"{c}.{e}.{x}" for e in _MD if "2depot" in e for c, x in (("C01", "infeasible-depot"), ("C01", "infeasible-depot@gen-format-cap1"), ("C05", "exact-fill-hidden"), ("C05", "feasible-hidden"),
+        ("C05", "optimum-unreachable"), ("C05", "optimum-unreachable@gen-format-cap1"), ("C05", "optimum-unreachable@per-depot-cap"))])
 known("MTVRP mask uses strict '<' on window ends (checker '<='): arrival exactly at the window end is masked; if that is the only way to serve a customer the episode never ends",
       "C05.mtvrp-vrptw.exact-tw-hidden", "C05.mtvrp-vrptw.exact-fill+tw-hidden", "C05.mtvrp-ovrpbltw.exact-fill+tw-hidden", "C05.mtvrp-ovrpbltw.exact-tw-hidden",
-      "C02.mtvrp-vrptw.step-bound@tw-equality-only", "C05.mtvrp-vrptw.optimum-unreachable@tw-equality-only")
+      "C02.mtvrp-vrptw.step-bound@tw-equality-only", "C05.mtvrp-vrptw.optimum-unreachable@tw-equality-only",
+      "C05.mtvrp-vrptw.optimum-unreachable@grid-equalities", "C05.mtvrp-ovrpbltw.optimum-unreachable@grid-equalities")
 known("MTVRP checker does not check linehaul-before-backhaul: [.., backhaul, linehaul, ..] in one route accepted", "C06.mtvrp-vrpb.accepts-order", "C06.mtvrp-ovrpbltw.accepts-order")
 known("MTVRP checker compares used_cap [B] with vehicle_capacity [B,1] (broadcast [B,B]): a batch with capacities [7,1] rejects valid rows",
-      *[f"C06.{e}.replay-mixed.rejects-feasible:used-more-than-capacity-for" for e in _MT])
+      *[f"C06.mtvrp-{v}.replay-mixed.rejects-feasible:used-more-than-capacity-for" for v in ("cvrp", "ovrp", "vrpb", "vrpl", "vrptw", "ovrpbltw")])
 
 
 # ----------------------------------------------------------------------------------------------------- oracles
-class VRP:
+def tight(st, slack, why):  # record the tightest numeric constraint(s) of a state
+    if slack < st["slack"] - 1e-9:
+        st["slack"], st["why"] = slack, why
+    elif slack <= st["slack"] + 1e-9:
+        st["why"] = "+".join(sorted(set(st["why"].split("+") + [why]) - {""}))
+
+
+class Oracle:  # interface defaults
+    def finalize(s, st):
+        return st if s.complete(st) else "missing"
+
+    def prune(s, st, a):
+        return False
+
+    def forms(s, c):  # action sequences encoding canonical solution c (for the checker)
+        return [list(c)]
+
+    def hidden_class(s, c):
+        return ""
+
+    def explain(s, st, r):  # failure class of a reward mismatch (for clause names)
+        return ""
+
+
+class VRP(Oracle):
     """Depot routing: node 0 = depot, a route = maximal run of customers between depot visits (final return implicit)."""
 
     def __init__(s, kind, D, **f):
         s.kind, s.D, s.n, s.na, g = kind, D, len(D) - 1, len(D), f.get
         s.dem, s.cap, s.bh, s.split = g("dem"), g("cap", INF), g("bh"), g("split", False)
         s.tw, s.svc, s.speed, s.lim, s.open = g("tw"), g("svc"), g("speed", 1.0), g("lim", INF), g("open", False)
-        s.skill, s.tech, s.cost = g("skill"), g("tech"), g("cost")
-        s.prize, s.pen, s.maxlen, s.need = g("prize"), g("pen"), g("maxlen", INF), g("need", 0)
-        s.agents, s.minmax, s.ends = g("agents"), g("minmax", False), kind in ("op", "pctsp", "spctsp")
-        loads = math.ceil(sum(s.dem) / s.cap - 1e-9) if s.split else 0
-        s.bound = (s.n + 2 if s.ends else s.n + len(s.tech) if s.tech else s.n + s.agents - 1 if s.agents
-                   else 2 * (s.n + loads) + 1 if s.split else 2 * s.n + 1)
+        s.skill, s.tech, s.cost, s.agents, s.minmax = g("skill"), g("tech"), g("cost"), g("agents"), g("minmax", False)
+        s.prize, s.pen, s.maxlen, s.need, s.ends = g("prize"), g("pen"), g("maxlen", INF), g("need", 0), kind in ("op", "pctsp", "spctsp")
+        loads, s.exact = math.ceil(sum(s.dem) / s.cap - 1e-9) if s.split else 0, False  # exact: set by main for hand-made instances
+        s.bound = s.n + 2 if s.ends else s.n + len(s.tech) if s.tech else s.n + s.agents - 1 if s.agents else 2 * (s.n + loads) + 1
 
     def init(s):
-        return dict(pos=0, vis=frozenset(), rem=tuple(s.dem) if s.split else (), load=0.0, loadb=0.0, t=0.0, rlen=0.0, k=0,
-                    bhs=False, total=0.0, worst=0.0, prize=0.0, closed=False, slack=INF, why="")
-
-    @staticmethod
-    def _c(st, slack, why):  # record the tightest numeric constraint(s)
-        if slack < st["slack"] - 1e-9:
-            st["slack"], st["why"] = slack, why
-        elif slack <= st["slack"] + 1e-9 and why not in st["why"].split("+"):
-            st["why"] = "+".join(sorted(set(st["why"].split("+") + [why]) - {""}))
+        return dict(pos=0, vis=frozenset(), rem=tuple(s.dem) if s.split else (), load=0.0, loadb=0.0, t=0.0, rlen=0.0, k=0, bhs=False, total=0.0,
+                    worst=0.0, prize=0.0, closed=False, slack=INF, why="")
 
     def served(s, st):
-        return all(r <= 1e-9 for r in st["rem"][1:]) if s.split else len(st["vis"]) == s.n
+        return all(r <= s.eps() for r in st["rem"][1:]) if s.split else len(st["vis"]) == s.n
+
+    def eps(s):  # SDVRP: residual demand / free capacity below this is rounding noise (ambiguous on float instances)
+        return 1e-9 if s.exact else 1e-6
 
     def complete(s, st):
         return st["closed"] if s.ends else s.served(st)
@@ -127,33 +150,29 @@ class VRP:
         st = dict(st)
         if st["closed"] or (a == 0 and st["pos"] == 0 and not s.ends and (s.served(st) or not s.tech)):
             return st if a == 0 else "move-after-end"  # padding / pointless stay at the depot
-        d = s.D[st["pos"]][a]
-        c = s.cost[min(st["k"], len(s.cost) - 1)] if s.cost else 1.0
-        if a == 0:  # end of a route (SVRP: also hands over to the next technician)
-            if s.tech and st["k"] >= len(s.tech):
-                return "skill"  # no technician left
+        d, k = s.D[st["pos"]][a], st["k"]
+        c = s.cost[min(k, len(s.cost) - 1)] if s.cost else 1.0
+        if s.tech and k >= len(s.tech):
+            return "skill"  # no technician left
+        if a == 0:  # end of a route (SVRP: hands over to the next technician; OP / PCTSP: end of the tour)
             if not s.open:
-                st["total"] += d * c
-                st["rlen"] += d
-                st["t"] += d / s.speed
-                s._c(st, s.lim - st["rlen"], "len")
+                st.update(total=st["total"] + d * c, rlen=st["rlen"] + d, t=st["t"] + d / s.speed)
+                tight(st, s.lim - st["rlen"], "len")
                 if s.tw:
-                    s._c(st, s.tw[0][1] - st["t"], "tw")
-            st["worst"] = max(st["worst"], st["rlen"])
+                    tight(st, s.tw[0][1] - st["t"], "tw")
             if s.ends:
-                st["closed"] = True
-                s._c(st, s.maxlen - st["total"], "len")
+                tight(st, s.maxlen - st["total"], "len")
                 if s.need and len(st["vis"]) < s.n:
-                    s._c(st, st["prize"] - s.need, "prize")
-            st.update(pos=0, k=st["k"] + 1, load=0.0, loadb=0.0, t=0.0, rlen=0.0, bhs=False)
+                    tight(st, st["prize"] - s.need, "prize")
+            st.update(pos=0, k=k + 1, load=0.0, loadb=0.0, t=0.0, rlen=0.0, bhs=False, closed=s.ends, worst=max(st["worst"], st["rlen"]))
             return st
-        if s.split:
+        if s.split:  # deliver as much as possible
             rem, free = list(st["rem"]), s.cap - st["load"]
-            if rem[a] <= 1e-9:
-                return "dup"  # nothing left to deliver there
-            if free <= 1e-9:
-                return "cap"  # full vehicle
-            q = min(rem[a], free)
+            if (rem[a] <= s.eps() or free <= s.eps()) and s.exact:
+                return "dup" if rem[a] <= s.eps() else "cap"  # nothing left to deliver there / full vehicle
+            if abs(rem[a] - free) <= 1e-6:
+                tight(st, abs(rem[a] - free), "cap")  # delivery that exactly fills the vehicle
+            q = max(0.0, min(rem[a], free))
             rem[a] -= q
             st["rem"], st["load"] = tuple(rem), st["load"] + q
         else:
@@ -164,68 +183,48 @@ class VRP:
                 if st["bhs"]:
                     return "order"  # linehaul after a backhaul in the same route
                 st["load"] += s.dem[a]
-                s._c(st, s.cap - st["load"], "cap")
+                tight(st, s.cap - st["load"], "cap")
             if s.bh and s.bh[a] > 0:
                 st["bhs"], st["loadb"] = True, st["loadb"] + s.bh[a]
-                s._c(st, s.cap - st["loadb"], "cap")
+                tight(st, s.cap - st["loadb"], "cap")
         if s.tw:
             st["t"] += d / s.speed
-            s._c(st, s.tw[a][1] - st["t"], "tw")
+            tight(st, s.tw[a][1] - st["t"], "tw")
             st["t"] = max(st["t"], s.tw[a][0]) + s.svc[a]
-        st["rlen"] += d
-        st["total"] += d * c
+        st.update(rlen=st["rlen"] + d, total=st["total"] + d * c, pos=a, prize=st["prize"] + (s.prize[a] if s.prize else 0))
         if s.lim < INF:
-            s._c(st, s.lim - st["rlen"] - (0 if s.open else s.D[a][0]), "len")
+            tight(st, s.lim - st["rlen"] - (0 if s.open else s.D[a][0]), "len")
         if s.tech:
-            if st["k"] >= len(s.tech):
-                return "skill"
-            s._c(st, s.tech[st["k"]] - s.skill[a], "skill")
+            tight(st, s.tech[k] - s.skill[a], "skill")
         if s.agents:
-            s._c(st, s.agents - st["k"] - 1, "agents")
-        if s.prize:
-            st["prize"] += s.prize[a]
-        st["pos"] = a
+            tight(st, s.agents - k - 1, "agents")
         return st
 
     def finalize(s, st):
-        if not s.complete(st):
-            return "missing"
-        return s.step(st, 0) if (not s.ends and st["pos"] != 0) else st
+        return "missing" if not s.complete(st) else s.step(st, 0) if (not s.ends and st["pos"] != 0) else st
 
     def obj(s, st):
-        if s.kind == "op":
-            return st["prize"]
         if s.ends:
-            return -(st["total"] + sum(s.pen[i] for i in range(1, s.n + 1) if i not in st["vis"]))
+            return st["prize"] if s.kind == "op" else -(st["total"] + sum(s.pen[i] for i in range(1, s.n + 1) if i not in st["vis"]))
         return -st["worst"] if s.minmax else -st["total"]
 
-    def explain(s, st, r):  # failure class of a reward mismatch (for clause names)
-        return ""
-
-    def prune(s, st, a):  # documented pruning of the brute force: no pointless stay at the depot
-        return a == 0 and st["pos"] == 0 and not s.ends and not s.tech
+    def prune(s, st, a):  # documented pruning: no pointless stay at the depot (SVRP: staying = next technician, not pruned)
+        return (a == 0 and st["pos"] == 0 and not s.ends and not s.tech) or (s.split and a != 0 and min(s.cap - st["load"], st["rem"][a]) <= s.eps())  # (SDVRP: nothing to deliver)
 
     def canon(s, seq):
-        if s.ends:
-            return tuple(a for a in seq if a)
-        q = list(seq)
+        q = [a for a in seq if a] if s.ends else list(seq)
         while q and q[-1] == 0:
             q.pop()
-        return tuple(q) if s.tech else tuple(a for i, a in enumerate(q) if a or (i and q[i - 1]))
+        return tuple(q) if s.tech or s.ends else tuple(a for i, a in enumerate(q) if a or (i and q[i - 1]))
 
-    def forms(s, c):  # action sequences encoding canonical solution c for the checker
+    def forms(s, c):
         return [list(c) + [0]] if s.ends else [list(c), list(c) + [0]]
 
     def hidden_class(s, c):
         if s.tech:  # a technician that could serve an open customer is skipped
-            segs, cur = [], []
-            for a in list(c) + [0]:
-                if a:
-                    cur.append(a)
-                else:
-                    segs.append(cur)
-                    cur = []
-            open_ = set(range(1, s.n + 1))
+            open_, segs = set(range(1, s.n + 1)), [[]]
+            for a in c:
+                segs = segs + [[]] if a == 0 else segs[:-1] + [segs[-1] + [a]]
             for k, seg in enumerate(segs):
                 if not seg and any(s.skill[j] <= s.tech[k] for j in open_):
                     return "-skip-technician"
@@ -233,8 +232,8 @@ class VRP:
         return ""
 
 
-class Perm:
-    """TSP / ATSP (closed tour over all nodes) and PDP (depot 0, pickups 1..h, deliveries h+1..2h)."""
+class Perm(Oracle):
+    """TSP / ATSP (closed tour over all nodes) and PDP (depot 0, pickups 1..h, deliveries h+1..2h, one tour)."""
 
     def __init__(s, kind, D, force=False):
         s.kind, s.D, s.n, s.na, s.force, s.h = kind, D, len(D), len(D), force, (len(D) - 1) // 2
@@ -247,49 +246,31 @@ class Perm:
         q = st["seq"]
         if a in q:
             return "dup"
-        if s.kind == "pdp":
-            if (a == 0) != (s.force and not q):
-                return "depot"
-            if a > s.h and a - s.h not in q:
-                return "prec"
+        if s.kind == "pdp" and ((a == 0) != (s.force and not q) or (a > s.h and a - s.h not in q)):
+            return "depot" if (a == 0) != (s.force and not q) else "prec"
         return dict(st, seq=q + (a,))
 
     def complete(s, st):
         return len(st["seq"]) == s.bound
 
-    def finalize(s, st):
-        return st if s.complete(st) else "missing"
-
     def obj(s, st):
         q = st["seq"] if (s.kind != "pdp" or s.force) else (0,) + st["seq"]
         return -sum(s.D[q[i]][q[(i + 1) % len(q)]] for i in range(len(q)))
 
-    def prune(s, st, a):
-        return False
-
     def canon(s, seq):
         return tuple(seq[: s.bound])
 
-    def forms(s, c):
-        return [list(c)]
 
-    def hidden_class(s, c):
-        return ""
-
-    explain = VRP.explain
-
-
-class MDCPDP:
+class MDCPDP(Oracle):
     """Depots 0..nd-1 (one vehicle each), pickups nd..nd+h-1, deliveries nd+h..; a depot action starts that vehicle (first
     visit) or returns it (second visit, implicit for the last route); orders are delivered by the vehicle that picked them up."""
 
-    def __init__(s, D, nd, cap, mode="minsum", w=1.0, open_=False):
-        s.kind, s.D, s.nd, s.na, s.h, s.cap, s.mode, s.w, s.open = "mdcpdp", D, nd, len(D), (len(D) - nd) // 2, cap, mode, w, open_
+    def __init__(s, D, nd, cap, mode, w):
+        s.kind, s.D, s.nd, s.na, s.h, s.cap, s.mode, s.w = "mdcpdp", D, nd, len(D), (len(D) - nd) // 2, cap, mode, w
         s.n, s.bound = len(D) - nd, len(D) + nd
 
     def init(s):
-        return dict(cur=None, started=frozenset(), vis=frozenset(), carry=frozenset(), pos=None, rlen=0.0, lens=(), late=0.0,
-                    routes=(), slack=INF, why="")
+        return dict(cur=None, started=frozenset(), vis=frozenset(), carry=frozenset(), pos=None, rlen=0.0, lens=(), late=0.0, routes=(), slack=INF, why="")
 
     def complete(s, st):
         return len(st["vis"]) == s.n and len(st["started"]) == s.nd
@@ -301,72 +282,52 @@ class MDCPDP:
                 if a in st["started"]:
                     return st if s.complete(st) else "dup"  # padding after the end
                 return dict(st, cur=a, pos=a, rlen=0.0, started=st["started"] | {a}, routes=st["routes"] + ((a,),))
-            if a != st["cur"]:
-                return "depot"  # switching depot with an open route
-            if st["carry"]:
-                return "prec"  # back at the depot with undelivered orders
-            ln = st["rlen"] + (0 if s.open else s.D[st["pos"]][a])
-            return dict(st, cur=None, pos=a, lens=st["lens"] + (ln,))
-        if st["cur"] is None:
-            return "depot"  # customer without vehicle
-        if a in st["vis"]:
-            return "dup"
+            if a != st["cur"] or st["carry"]:
+                return "depot" if a != st["cur"] else "prec"  # switching depot with an open route / back with undelivered orders
+            return dict(st, cur=None, pos=a, lens=st["lens"] + (st["rlen"] + s.D[st["pos"]][a],))
+        if st["cur"] is None or a in st["vis"]:
+            return "depot" if st["cur"] is None else "dup"
         if a < s.nd + s.h:
             st["carry"] = st["carry"] | {a}
-            VRP._c(st, s.cap[st["cur"]] - len(st["carry"]), "cap")
+            tight(st, s.cap[st["cur"]] - len(st["carry"]), "cap")
         elif a - s.h not in st["carry"]:
             return "prec"
-        else:
-            st["carry"] = st["carry"] - {a - s.h}
         st["rlen"] += s.D[st["pos"]][a]
         if a >= s.nd + s.h:
-            st["late"] += st["rlen"]
-        st["routes"] = st["routes"][:-1] + (st["routes"][-1] + (a,),)
-        return dict(st, pos=a, vis=st["vis"] | {a})
+            st["carry"], st["late"] = st["carry"] - {a - s.h}, st["late"] + st["rlen"]
+        return dict(st, pos=a, vis=st["vis"] | {a}, routes=st["routes"][:-1] + (st["routes"][-1] + (a,),))
 
     def finalize(s, st):
-        if not s.complete(st):
-            return "missing"
-        return s.step(st, st["cur"]) if st["cur"] is not None else st
+        return "missing" if not s.complete(st) else s.step(st, st["cur"]) if st["cur"] is not None else st
 
     def obj(s, st):
         tot = sum(st["lens"])
         return -(max(st["lens"]) if s.mode == "minmax" else tot if s.mode == "minsum" else (1 - s.w) * tot + s.w * st["late"])
 
-    def prune(s, st, a):
-        return False
-
     def canon(s, seq):
-        st = s.init()
-        for a in seq:
-            st = s.step(st, a)
-            if isinstance(st, str):
-                return ("invalid",) + tuple(seq)
-        return frozenset(r for r in st["routes"] if len(r) > 1)
+        st = replay(s, seq, False)
+        return ("invalid",) + tuple(seq) if isinstance(st, str) else frozenset(r for r in st["routes"] if len(r) > 1)
 
     def forms(s, c):
         return []
 
     def explain(s, st, r):
-        last = 0 if s.open else s.D[st["routes"][-1][-1]][st["routes"][-1][0]]
+        last = s.D[st["routes"][-1][-1]][st["routes"][-1][0]]
         alt = dict(st, lens=st["lens"][:-1] + (st["lens"][-1] - last,))
         return "-last-return-leg-missing" if last > 1e-6 and close(r, s.obj(alt)) else ""
 
-    def hidden_class(s, c):
-        return ""
 
-
-def replay(P, seq):
+def replay(P, seq, fin=True):
     st = P.init()
     for a in seq:
         st = P.step(st, a)
         if isinstance(st, str):
             return st
-    return P.finalize(st)
+    return P.finalize(st) if fin else st
 
 
 def brute(P, tol):
-    """All feasible complete solutions by DFS over ALL action sequences (oracle state machine only)."""
+    """All feasible complete solutions by DFS over ALL action sequences (oracle state machine only) -> {canon: (obj, slack, why, seq)}."""
     out = {}
 
     def rec(st, seq):
@@ -374,13 +335,10 @@ def brute(P, tol):
             f = P.finalize(st)
             if not isinstance(f, str) and f["slack"] >= -tol:
                 out.setdefault(P.canon(seq), (P.obj(f), f["slack"], f["why"], seq))
-            return
-        if len(seq) > P.bound + 2:
-            return
-        for a in range(P.na):
-            if not P.prune(st, a):
-                t = P.step(st, a)
-                if not isinstance(t, str) and t["slack"] >= -tol:
+        elif len(seq) <= P.bound + 2:
+            for a in range(P.na):
+                t = None if P.prune(st, a) else P.step(st, a)
+                if isinstance(t, dict) and t["slack"] >= -tol:
                     rec(t, seq + [a])
 
     rec(P.init(), [])
@@ -396,7 +354,7 @@ class Ctx:
         s.count[name] = s.count.get(name, 0) + 1
         if (s.prop and not name.startswith(s.prop)) or s.count[name] > 2:  # at most 2 witnesses per clause
             return
-        (s.rep.known if name in KNOWN else s.rep.violation)(name, what, inp)
+        (s.rep.known if name in KNOWN else s.rep.violation)(name, what, {k: v for k, v in inp.items() if k != "at"})
 
 
 def slug(e):
@@ -407,19 +365,19 @@ def flat(x):
     return x.reshape(x.shape[0], -1)[:, 0]
 
 
-def reward_of(env, td, acts):
-    r = env.get_reward(td, acts)
-    return r, (list(r.shape) == [acts.shape[0]])
-
-
 def close(r, o):
     return abs(r - o) <= 1e-4 * max(1.0, abs(o))
 
 
+def stepped(env, td, idx, acts):
+    nxt = td[torch.tensor(idx)]
+    nxt["action"] = torch.tensor(acts)
+    return env.step(nxt)["next"]
+
+
 def explore(cx, name, env, raw, P, inp, checker):
-    """Enumerate all mask-admitted sequences; returns {canon: (seq, reward_at_done)}."""
-    td = env.reset(raw.clone())
-    seqs, fin, sols, level = [[]], [None], {}, 0
+    """Enumerate all mask-admitted sequences from reset; returns {canon: action sequence at done}."""
+    td, seqs, fin, sols, level = env.reset(raw.clone()), [[]], [None], {}, 0
     while any(f is None for f in fin):
         if level > P.bound:
             cx.V(f"C02.{name}.step-bound{inp['at']}", f"unfinished after {level} steps (bound {P.bound})", **inp, actions=seqs[fin.index(None)])
@@ -439,24 +397,17 @@ def explore(cx, name, env, raw, P, inp, checker):
             break
         pad = [fin[i] is not None for i in idx]
         try:
-            nxt = td[torch.tensor(idx)]
-            nxt["action"] = torch.tensor(acts)
-            nxt = env.step(nxt)["next"]
+            nxt = stepped(env, td, idx, acts)
         except Exception as e:  # retry without the finished (padding) rows
             if not any(pad):
                 cx.V(f"C02.{name}.step-raises", f"env.step raised {type(e).__name__}: {e}", **inp, actions=[seqs[i] + [a] for i, a in zip(idx, acts)][:3])
                 break
             j = pad.index(True)
-            cx.V(f"C02.{name}.step-raises-on-padding", f"env.step raised {type(e).__name__}: {e} when a finished row is stepped with its "
-                 f"offered action {acts[j]}", **inp, actions=seqs[idx[j]] + [acts[j]])
-            keep = [k for k, p in enumerate(pad) if not p]
-            idx, acts = [idx[k] for k in keep], [acts[k] for k in keep]
-            nxt = td[torch.tensor(idx)]
-            nxt["action"] = torch.tensor(acts)
-            nxt = env.step(nxt)["next"]
+            cx.V(f"C02.{name}.step-raises-on-padding", f"env.step raised {type(e).__name__}: {e} when a finished row takes its offered action", **inp, actions=seqs[idx[j]] + [acts[j]])
+            idx, acts = [i for i, p in zip(idx, pad) if not p], [a for a, p in zip(acts, pad) if not p]
+            nxt = stepped(env, td, idx, acts)
         td, level = nxt, level + 1
-        seqs, pfin = [seqs[i] + [a] for i, a in zip(idx, acts)], [fin[i] for i in idx]
-        done = flat(td["done"]).tolist()
+        seqs, pfin, done = [seqs[i] + [a] for i, a in zip(idx, acts)], [fin[i] for i in idx], flat(td["done"]).tolist()
         fin = [pf if pf is not None else (level if d else None) for pf, d in zip(pfin, done)]
         for k, (pf, d) in enumerate(zip(pfin, done)):
             if pf is not None and not d:
@@ -472,12 +423,11 @@ def explore(cx, name, env, raw, P, inp, checker):
 
 def judge(cx, name, env, td, seqs, P, inp, when, checker, sols):
     """C01 / C03 / C06 for a batch of completed sequences of equal length (td = their final states)."""
-    acts = torch.tensor(seqs)
     try:
-        r, shape_ok = reward_of(env, td, acts)
-        if not shape_ok:
-            cx.V(f"C03.{name}.reward-shape", f"reward shape {list(r.shape)} for batch {acts.shape[0]}", **inp, actions=seqs[0])
-        r = r.reshape(-1).tolist() if r.numel() == len(seqs) else [float("nan")] * len(seqs)
+        r = env.get_reward(td, torch.tensor(seqs))
+        if list(r.shape) != [len(seqs)]:
+            cx.V(f"C03.{name}.reward-shape", f"reward shape {list(r.shape)} for batch {len(seqs)}", **inp, actions=seqs[0])
+        r = r.reshape(-1).tolist() if r.numel() == len(seqs) else [None] * len(seqs)
     except Exception as e:
         cx.V(f"C03.{name}.reward-raises", f"get_reward raised {type(e).__name__}: {e} ({when})", **inp, actions=seqs[0])
         r = [None] * len(seqs)
@@ -487,18 +437,18 @@ def judge(cx, name, env, td, seqs, P, inp, when, checker, sols):
         f = replay(P, q)
         if isinstance(f, str) or f["slack"] < -TOL:
             why = f if isinstance(f, str) else f["why"]
-            cx.V(f"C01.{name}.infeasible-{why}", f"mask-confined episode violates '{why}'" + ("" if isinstance(f, str) else f" by {-f['slack']:.3g}"), **inp, actions=q)
+            cx.V(f"C01.{name}.infeasible-{why}{inp['at']}", f"mask-confined episode violates '{why}'" + ("" if isinstance(f, str) else f" by {-f['slack']:.3g}"), **inp, actions=q)
             continue
         if rq is not None and not close(rq, P.obj(f)):
             cx.V(f"C03.{name}.reward-{when}{P.explain(f, rq)}", f"get_reward={rq:.6f} oracle={P.obj(f):.6f}", **inp, actions=q)
         ok.append(k)
         if sols is not None:
-            sols.setdefault(P.canon(q), (q, rq))
+            sols.setdefault(P.canon(q), q)
     if checker and ok:
-        check_accepts(cx, name, env, td[torch.tensor(ok)], [seqs[k] for k in ok], inp, f"C06.{name}.rejects-mask-solution")
+        check_accepts(cx, env, td[torch.tensor(ok)], [seqs[k] for k in ok], inp, f"C06.{name}.rejects-mask-solution")
 
 
-def check_accepts(cx, name, env, td, seqs, inp, clause):
+def check_accepts(cx, env, td, seqs, inp, clause):
     try:
         env.check_solution_validity(td, torch.tensor(seqs))
     except Exception:
@@ -506,54 +456,47 @@ def check_accepts(cx, name, env, td, seqs, inp, clause):
             try:
                 env.check_solution_validity(td[k : k + 1], torch.tensor([q]))
             except Exception as e:
-                cx.V(f"{clause}:{slug(e)}", f"checker raised {type(e).__name__}: {e} on a feasible solution", **inp, actions=q)
-                break
+                return cx.V(f"{clause}:{slug(e)}", f"checker raised {type(e).__name__}: {e} on a feasible solution", **inp, actions=q)
 
 
 def compare(cx, name, P, sols, inp, exact):
     """C05: mask-reachable canonical set vs brute-force set."""
-    bf = brute(P, 0.0 if exact else TOL)
+    bf, lo = brute(P, 0.0 if exact else TOL), (-1e-9 if exact else TOL)
     for c, (o, slack, why, q) in bf.items():
-        tight = abs(slack) <= (1e-9 if exact else TOL)
-        if c in sols or (tight and not exact) or slack < -1e-9:
+        istight = abs(slack) <= (1e-9 if exact else TOL)
+        if c in sols or (istight and not exact) or slack < -1e-9:
             continue
         hc = P.hidden_class(c)
-        cls = "feasible-hidden" + hc if hc or not tight else f"exact-{why.replace('cap', 'fill')}-hidden"
+        cls = "feasible-hidden" + hc if hc or not istight else f"exact-{why.replace('cap', 'fill')}-hidden"
         cx.V(f"C05.{name}.{cls}", f"feasible solution (slack {slack:.3g} on '{why}', objective {o:.5f}) not reachable through the mask", **inp, actions=q)
-    sure = [o for o, slack, _, _ in bf.values() if slack >= (-1e-9 if exact else TOL)]
-    got = [P.obj(replay(P, q)) for q, _ in sols.values()]
-    if sure and (not got or max(got) < max(sure) - 1e-7):
-        best = max(bf.values(), key=lambda v: v[0] if v[1] >= (-1e-9 if exact else TOL) else -INF)
-        cx.V(f"C05.{name}.optimum-unreachable{inp['at']}", f"best mask-reachable objective {max(got) if got else None} < optimum {max(sure):.6f}", **inp, actions=best[3])
-    return bf
+    sure = [(o, q) for o, slack, _, q in bf.values() if slack >= lo]
+    got = [P.obj(replay(P, q)) for q in sols.values()]
+    if sure and (not got or max(got) < max(sure)[0] - 1e-7):
+        cx.V(f"C05.{name}.optimum-unreachable{inp['at']}", f"best mask-reachable objective {max(got) if got else None} < optimum {max(sure)[0]:.6f}", **inp, actions=max(sure)[1])
+    return [c for c, v in bf.items() if v[1] > 1e-3 or (exact and v[1] >= -1e-9)]
 
 
-def corrupt(cx, name, env, raw, P, bf, inp, budget):
+def corrupt(cx, name, env, raw, P, feas, inp, budget):
     """C06: hand-built feasible solutions accepted, single-edit corruptions classified infeasible by the oracle rejected."""
-    td0 = env.reset(raw.clone())
-    feas = [c for c, v in bf.items() if v[1] > 1e-3 or (inp["exact"] and v[1] >= -1e-9)]
+    td0, seen, ends = env.reset(raw.clone()), set(), getattr(P, "ends", False)
     for c in feas[:: max(1, len(feas) // budget)]:
         for q in P.forms(c):
             cx.rep.case((name, inp["instance"], tuple(q), "hand-built"))
-            check_accepts(cx, name, env, td0, [q], inp, f"C06.{name}.rejects-feasible")
-    seen = set()
-    for c in feas[:: max(1, len(feas) // max(1, budget // 4))]:
-        ends = getattr(P, "ends", False)  # OP / PCTSP: edit the customer list, keep the single final return
-        q, lo = (list(c), 1) if ends else (P.forms(c)[-1], 0)
+            check_accepts(cx, env, td0, [q], inp, f"C06.{name}.rejects-feasible")
+    for c in feas[:: max(1, 2 * len(feas) // budget)]:
+        q, lo = (list(c), 1) if ends else (P.forms(c)[-1], 0)  # OP / PCTSP: edit the customer list, keep the single final return
         muts = [q[:i] + q[i + 1 :] for i in range(len(q))] + [q[:i] + [q[i + 1], q[i]] + q[i + 2 :] for i in range(len(q) - 1)]
         muts += [q[:i] + [a] + q[i + 1 :] for i in range(len(q)) for a in range(lo, P.na) if a != q[i]]
         muts += [q[:i] + [a] + q[i:] for i in range(len(q) + 1) for a in range(1, P.na)]
         for m in muts:
             m = m + [0] if ends else m
-            if tuple(m) in seen or not m:
-                continue
-            seen.add(tuple(m))
             f = replay(P, m)
-            if (f in ("dup", "cap") and getattr(P, "split", False)) or (not isinstance(f, str) and f["slack"] >= -1e-3):
+            if tuple(m) in seen or not m or (f in ("dup", "cap") and getattr(P, "split", False)) or (isinstance(f, dict) and f["slack"] >= -1e-3):
                 continue  # still feasible / within rounding tolerance / SDVRP visit that delivers nothing (wasteful, not infeasible)
+            seen.add(tuple(m))
             why = f if isinstance(f, str) else f["why"]
             if why == "missing" and len(set(m)) == len(m) and set(m) | {0} == set(range(max(m) + 1)):
-                why = "missing-truncated"  # a shorter sequence that is itself a permutation of 0..len-1
+                why = "missing-truncated"  # a shorter sequence that is itself a permutation of 0..k
             cx.rep.case((name, inp["instance"], tuple(m), "corrupt"))
             try:
                 env.check_solution_validity(td0, torch.tensor([m]))
@@ -565,52 +508,46 @@ def corrupt(cx, name, env, raw, P, bf, inp, budget):
 def joint(cx, name, env, items, tag, checker):
     """Replay one complete sequence per instance in a single batch (finished rows padded with their first offered action)."""
     raws, Ps, seqs, inps = zip(*items)
-    inp = dict(env=name, instance=[i["instance"] for i in inps], data=[i["data"] for i in inps], batch=tag)
     keys = set.intersection(*[set(r.keys()) for r in raws])
-    td = env.reset(torch.cat([r.select(*keys).clone() for r in raws]))
-    played, fin = [[] for _ in seqs], [None] * len(seqs)
+    inp = dict(env=name, instance=[i["instance"] for i in inps], data=[i["data"] for i in inps], batch=tag, actions=[list(q) for q in seqs])
+    td, played = env.reset(torch.cat([r.select(*keys).clone() for r in raws])), [[] for _ in seqs]
     for t in range(max(len(q) for q in seqs)):
         acts = []
         for i, q in enumerate(seqs):
-            m = td["action_mask"][i]
-            if t < len(q):
-                if not m[q[t]]:
-                    return cx.V(f"C05.{name}.replay-{tag}.action-not-offered", f"row {i}: action {q[t]} offered in the enumeration batch but not here", **inp, actions=[list(x) for x in seqs])
-                acts.append(q[t])
-            else:
-                opts = m.nonzero().flatten().tolist()
-                if not opts:
-                    cx.V(f"C02.{name}.replay-{tag}.finished-row-no-action", f"row {i} finished, no action offered", **inp, actions=[list(x) for x in seqs])
-                acts.append((opts or [0])[0])
+            opts = td["action_mask"][i].nonzero().flatten().tolist()
+            if t < len(q) and q[t] not in opts:
+                return cx.V(f"C05.{name}.replay-{tag}.action-not-offered", f"row {i} step {t}: action {q[t]} was offered in the enumeration batch but not here", **inp)
+            if t >= len(q) and not opts:
+                cx.V(f"C02.{name}.replay-{tag}.finished-row-no-action", f"row {i} finished, no action offered", **inp)
+            acts.append(q[t] if t < len(q) else (opts or [0])[0])
         td["action"] = torch.tensor(acts)
         try:
             td = env.step(td)["next"]
         except Exception as e:
-            return cx.V(f"C02.{name}.replay-{tag}.step-raises", f"env.step raised {type(e).__name__}: {e} at step {t}", **inp, actions=[list(x) for x in seqs])
-        for i, a in enumerate(acts):
+            return cx.V(f"C02.{name}.replay-{tag}.step-raises", f"env.step raised {type(e).__name__}: {e} at step {t}", **inp)
+        for i, (a, d) in enumerate(zip(acts, flat(td["done"]).tolist())):
             played[i].append(a)
-        for i, d in enumerate(flat(td["done"]).tolist()):
             if d != (t + 1 >= len(seqs[i])):
-                return cx.V(f"C02.{name}.replay-{tag}.done-mismatch", f"row {i}: done={d} after {t + 1} of {len(seqs[i])} steps", **inp, actions=[list(x) for x in seqs])
-    acts = torch.tensor(played)
+                return cx.V(f"C02.{name}.replay-{tag}.done-mismatch", f"row {i}: done={d} after {t + 1} of {len(seqs[i])} steps", **inp)
+    inp["actions"] = played
     try:
-        r, shape_ok = reward_of(env, td, acts)
-        if not shape_ok:
-            cx.V(f"C03.{name}.replay-{tag}.reward-shape", f"reward shape {list(r.shape)} for batch {len(seqs)}", **inp, actions=played)
+        r = env.get_reward(td, torch.tensor(played))
+        if list(r.shape) != [len(seqs)]:
+            cx.V(f"C03.{name}.replay-{tag}.reward-shape", f"reward shape {list(r.shape)} for batch {len(seqs)}", **inp)
         for i, (P, q) in enumerate(zip(Ps, played)):
             cx.rep.case((name, tag, tuple(inp["instance"]), tuple(map(tuple, played)), i))
-            f = replay(P, q)
+            f, ri = replay(P, q), r.reshape(-1)[i].item() if r.numel() == len(seqs) else None
             if isinstance(f, str) or f["slack"] < -TOL:
-                cx.V(f"C01.{name}.replay-{tag}.infeasible", f"row {i} infeasible per oracle: {f if isinstance(f, str) else f['why']}", **inp, actions=played)
-            elif r.numel() == len(seqs) and not close(r.reshape(-1)[i].item(), P.obj(f)):
-                cx.V(f"C03.{name}.replay-{tag}.reward{P.explain(f, r.reshape(-1)[i].item())}", f"row {i}: get_reward={r.reshape(-1)[i].item():.6f} oracle={P.obj(f):.6f}", **inp, actions=played)
+                cx.V(f"C01.{name}.replay-{tag}.infeasible", f"row {i} infeasible per oracle: {f if isinstance(f, str) else f['why']}", **inp)
+            elif ri is not None and not close(ri, P.obj(f)):
+                cx.V(f"C03.{name}.replay-{tag}.reward{P.explain(f, ri)}", f"row {i}: get_reward={ri:.6f} oracle={P.obj(f):.6f}", **inp)
     except Exception as e:
-        cx.V(f"C03.{name}.replay-{tag}.reward-raises", f"get_reward raised {type(e).__name__}: {e}", **inp, actions=played)
+        cx.V(f"C03.{name}.replay-{tag}.reward-raises", f"get_reward raised {type(e).__name__}: {e}", **inp)
     if checker:
         try:
-            env.check_solution_validity(td, acts)
+            env.check_solution_validity(td, torch.tensor(played))
         except Exception as e:
-            cx.V(f"C06.{name}.replay-{tag}.rejects-feasible:{slug(e)}", f"checker raised {type(e).__name__}: {e} on mask-generated batch", **inp, actions=played)
+            cx.V(f"C06.{name}.replay-{tag}.rejects-feasible:{slug(e)}", f"checker raised {type(e).__name__}: {e} on a mask-generated batch", **inp)
 
 
 # ----------------------------------------------------------------------------------------------------- instances
@@ -618,176 +555,142 @@ def F(x):
     return torch.tensor(x, dtype=torch.float32)[None]
 
 
-def dist(pts):
-    pts = [[float(v) for v in p] for p in pts]
-    return [[math.hypot(p[0] - q[0], p[1] - q[1]) for q in pts] for p in pts]
+def I(x):
+    return torch.tensor([x])
 
 
 def L(t):  # float64 python values of a batch-1 tensor
     return t[0].double().tolist()
 
 
-GRID = [[0, 0], [3 / 8, 0], [3 / 8, 4 / 8], [0, 4 / 8], [-3 / 8, 0]]  # dyadic 3-4-5 grid: all used distances exact in float32
+def dist(pts):
+    return [[math.hypot(p[0] - q[0], p[1] - q[1]) for q in pts] for p in pts]
 
 
 def TD(**kw):
     return TensorDict(kw, batch_size=[1])
 
 
-def specs(tier, n):
-    """-> {env name: (env, checker?, [(label, raw td, oracle, exact)])}; generator instances are appended by main."""
-    S, g = {}, GRID[: n + 1]
-    dep, locs = F(g[0]), F(g[1:])
-    nn = len(g) - 1
+GRID = [[0, 0], [3 / 8, 0], [3 / 8, 4 / 8], [0, 4 / 8], [-3 / 8, 0], [-3 / 8, 4 / 8]]  # dyadic 3-4-5 grid: distances exact in float32
 
-    def add(name, env, checker, mk, hand):
-        S[name] = (env, checker, mk, hand)
 
-    # TSP / ATSP
-    add("tsp", R.TSPEnv(generator_params=dict(num_loc=nn + 1), check_solution=False), True,
-        lambda raw: Perm("tsp", dist(L(raw["locs"]))), [("grid", TD(locs=F(g)), {})])
-    am = [[0, 1, 5, 2, 7], [3, 0, 1, 6, 2], [2, 4, 0, 1, 3], [1, 2, 6, 0, 1], [4, 1, 2, 3, 0]]
-    add("atsp", R.ATSPEnv(generator_params=dict(num_loc=nn + 1), check_solution=False), True,
-        lambda raw: Perm("atsp", L(raw["cost_matrix"])), [("intmat", TD(cost_matrix=F([r[: nn + 1] for r in am[: nn + 1]])), {})])
-    # CVRP family (documented format: demand normalised by capacity, vehicle capacity 1.0)
-    idem = [8, 6, 2, 4][:nn]
+def specs(tier, nn):
+    """-> {env config: (env, has checker, oracle builder, [(label, raw td, exact overrides)])} for nn customers; generator instances are added by main."""
+    S, g, ne = {}, GRID[: nn + 1], nn - nn % 2
+    dep, locs, pts = F(g[0]), F(g[1:]), lambda raw: dist([L(raw["depot"])] + L(raw["locs"]))
+
+    def add(name, cls, checker, mk, hand, num_loc=nn, **kw):
+        S[name] = (cls(generator_params=dict(num_loc=num_loc, **kw.pop("gen", {})), check_solution=False, **kw), checker, mk, hand)
+
+    add("tsp", R.TSPEnv, True, lambda raw: Perm("tsp", dist(L(raw["locs"]))), [("grid", TD(locs=F(g)), {})], nn + 1)
+    am = [[0, 1, 5, 2, 7, 3], [3, 0, 1, 6, 2, 4], [2, 4, 0, 1, 3, 6], [1, 2, 6, 0, 1, 2], [4, 1, 2, 3, 0, 5], [2, 5, 1, 4, 3, 0]]
+    add("atsp", R.ATSPEnv, True, lambda raw: Perm("atsp", L(raw["cost_matrix"])), [("intmat", TD(cost_matrix=F([r[: nn + 1] for r in am[: nn + 1]])), {})], nn + 1)
+    # CVRP family (documented format: demand normalised by the capacity, vehicle capacity 1.0); generator capacity 12 so that it binds
+    idem, sd, s12 = [8, 6, 2, 4, 5][:nn], [12, 14, 6, 9, 7][:nn], {3: [2, 6, 4], 4: [1, 1, 6, 4]}.get(nn, [1, 1, 2, 4, 4])
 
     def cv(kind, **x):
-        return lambda raw, dem=None, cap=1.0: VRP(kind, dist([L(raw["depot"])] + L(raw["locs"])), dem=[0] + (dem or L(raw["demand"])), cap=cap, **x)
+        return lambda raw, dem=None, cap=1.0: VRP(kind, pts(raw), dem=[0] + (dem or L(raw["demand"])), cap=cap, **x, **(
+            dict(tw=L(raw["time_windows"]), svc=L(raw["durations"])) if kind == "cvrptw" else {}))
 
-    cvh = [("exact-fill-20", TD(depot=dep, locs=locs, demand=F(idem) / 20.0), dict(dem=idem, cap=sum(idem))),
-           ("half-half", TD(depot=dep, locs=locs, demand=F([0.5, 0.5, 0.25, 0.25][:nn])), {})]
-    add("cvrp", R.CVRPEnv(generator_params=dict(num_loc=nn), check_solution=False), True, cv("cvrp"), cvh)
-    sd = [12, 14, 6, 9][:nn]
-    add("sdvrp", R.SDVRPEnv(generator_params=dict(num_loc=nn), check_solution=False), True, cv("sdvrp", split=True),
-        [("split-ints", TD(depot=dep, locs=locs, demand=F(sd) / 20.0), dict(dem=sd, cap=20)), cvh[1]])
-    # CVRPTW: integer grid (x8), integer windows; arrival exactly at the window end is allowed
-    ig = [[8 * v for v in p] for p in g]
-
-    def tw(raw, dem=None, cap=1.0):
-        return VRP("cvrptw", dist([L(raw["depot"])] + L(raw["locs"])), dem=[0] + (dem or L(raw["demand"])), cap=cap,
-                   tw=L(raw["time_windows"]), svc=L(raw["durations"]))
-
-    twin = torch.tensor([[[0, 40], [0, 3], [2, 7], [6, 9], [1, 30]][: nn + 1]])  # c1, c3 (via c1) reached exactly at the window end
-    add("cvrptw", R.CVRPTWEnv(generator_params=dict(num_loc=nn), check_solution=False), True, tw,
-        [("tw-equality", TD(depot=F(ig[0]), locs=F(ig[1:]), demand=F([5, 5, 5, 5][:nn]) / 20.0, durations=F([0, 1, 0, 2, 1][: nn + 1]),
-                            time_windows=twin), dict(dem=[5] * nn, cap=20)),
-         ("tw-fractional", TD(depot=F([0, 0]), locs=F([[3, 0.5], [0, 4], [3, 4], [-2, 1.5]][:nn]), demand=F([5, 5, 5, 5][:nn]) / 20.0, durations=F([0.0] * (nn + 1)),
-                              time_windows=torch.tensor([[[0, 40], [0, 9], [0, 7], [4, 9], [1, 30]][: nn + 1]])), dict(dem=[5] * nn, cap=20))])
-    # SVRP
+    half = ("half-half", TD(depot=dep, locs=locs, demand=F([0.5, 0.5, 0.25, 0.25, 0.5][:nn])), {})
+    add("cvrp", R.CVRPEnv, True, cv("cvrp"), [("exact-fill-20", TD(depot=dep, locs=locs, demand=F(idem) / 20.0), dict(dem=idem, cap=20)), half], gen=dict(capacity=12.0))
+    add("sdvrp", R.SDVRPEnv, True, cv("sdvrp", split=True), [("split-ints", TD(depot=dep, locs=locs, demand=F(sd) / 20.0), dict(dem=sd, cap=20)), half,
+                                                             ("thirds-12", TD(depot=dep, locs=locs, demand=F(s12) / 12.0), dict(dem=s12, cap=12))], gen=dict(capacity=12.0))
+    # CVRPTW: integer grid (x8) and integer windows: c1 and (via c1) c3 are reached exactly at the window end; fractional: late arrivals below 1 time unit
+    twd = dict(demand=F([5] * nn) / 20.0), dict(dem=[5] * nn, cap=20)
+    add("cvrptw", R.CVRPTWEnv, True, cv("cvrptw"), [
+        ("tw-equality", TD(depot=F(g[0]) * 8, locs=locs * 8, durations=F([0, 1, 0, 2, 1, 0][: nn + 1]), time_windows=I([[0, 40], [0, 3], [2, 7], [6, 9], [1, 30], [5, 30]][: nn + 1]), **twd[0]), twd[1]),
+        ("tw-fractional", TD(depot=F([0, 0]), locs=F([[3, 0.5], [0, 4], [3, 4], [-2, 1.5], [1, -2.5]][:nn]), durations=F([0.0] * (nn + 1)),
+                             time_windows=I([[0, 40], [0, 9], [0, 7], [4, 9], [1, 30], [2, 6]][: nn + 1]), **twd[0]), twd[1])], gen=dict(capacity=12.0))
     costs = [1, 2, 3]
-
-    def sv(raw):
-        return VRP("svrp", dist([L(raw["depot"])] + L(raw["locs"])), skill=[0] + [v[0] for v in L(raw["skills"])],
-                   tech=[v[0] for v in L(raw["techs"])], cost=costs)
-
-    far = F([[1.0, 0.0], [1.0, 0.125], [0.0, 0.5], [0.5, 0.5]][:nn])
-    add("svrp", R.SVRPEnv(generator_params=dict(num_loc=nn, tech_costs=costs), check_solution=False), True, sv,
-        [("skip-tech", TD(depot=dep, locs=far, techs=F([[1], [2], [3]]), skills=F([[1], [2], [3], [1]][:nn])), {}),
-         ("tech0-all", TD(depot=dep, locs=locs, techs=F([[2], [3], [4]]), skills=F([[1], [2], [1], [2]][:nn])), {})])
-    # OP: max_length equal to the length of the full grid tour / a partial one
-    def op(raw):
-        return VRP("op", dist([L(raw["depot"])] + L(raw["locs"])), prize=[0] + L(raw["prize"]), maxlen=L(raw["max_length"]))
-
-    add("op", R.OPEnv(generator_params=dict(num_loc=nn), check_solution=False), True, op,
-        [("len-equality", TD(depot=dep, locs=locs, prize=F([0.5, 0.25, 0.75, 1.0][:nn]), max_length=torch.tensor([1.75])), {}),
-         ("len-slack", TD(depot=dep, locs=locs, prize=F([0.5, 0.25, 0.75, 1.0][:nn]), max_length=torch.tensor([1.3])), {})])
-    # PCTSP / SPCTSP
-    def pc(kind, key):
-        return lambda raw: VRP(kind, dist([L(raw["depot"])] + L(raw["locs"])), prize=[0] + L(raw[key]), pen=[0] + L(raw["penalty"]), need=1.0)
-
-    pch = [("prize-equality", TD(depot=dep, locs=locs, penalty=F([0.25, 0.5, 0.125, 0.25][:nn]), deterministic_prize=F([0.5, 0.25, 0.25, 0.5][:nn]),
-                                 stochastic_prize=F([0.25, 0.25, 0.5, 0.75][:nn])), {}),
-           ("prize-short", TD(depot=dep, locs=locs, penalty=F([0.25, 0.5, 0.125, 0.25][:nn]), deterministic_prize=F([0.25, 0.125, 0.25, 0.125][:nn]),
-                              stochastic_prize=F([0.5, 0.125, 0.125, 0.125][:nn])), {})]
-    add("pctsp", R.PCTSPEnv(generator_params=dict(num_loc=nn), check_solution=False), True, pc("pctsp", "deterministic_prize"), pch)
-    add("spctsp", R.SPCTSPEnv(generator_params=dict(num_loc=nn), check_solution=False), True, pc("spctsp", "stochastic_prize"), pch)
-    # PDP (num_loc even)
-    ne = nn - nn % 2
+    add("svrp", R.SVRPEnv, True, lambda raw: VRP("svrp", pts(raw), skill=[0] + [v[0] for v in L(raw["skills"])], tech=[v[0] for v in L(raw["techs"])], cost=costs), [
+        ("skip-tech", TD(depot=dep, locs=F([[1.0, 0.0], [1.0, 0.125], [0.0, 0.5], [0.5, 0.5], [0.25, 0]][:nn]), techs=F([[1], [2], [3]]), skills=F([[1], [2], [3], [1], [2]][:nn])), {}),
+        ("tech0-all", TD(depot=dep, locs=locs, techs=F([[2], [3], [4]]), skills=F([[1], [2], [1], [2], [1]][:nn])), {})], gen=dict(tech_costs=costs))
+    prz = F([0.5, 0.25, 0.75, 1.0, 0.25][:nn])  # OP: max_length == length of the grid tour 0-1-2-3-0 (1.75)
+    add("op", R.OPEnv, True, lambda raw: VRP("op", pts(raw), prize=[0] + L(raw["prize"]), maxlen=L(raw["max_length"])),
+        [("len-equality", TD(depot=dep, locs=locs, prize=prz, max_length=torch.tensor([1.75])), {}), ("len-slack", TD(depot=dep, locs=locs, prize=prz, max_length=torch.tensor([1.3])), {})])
+    pen = F([0.25, 0.5, 0.125, 0.25, 0.5][:nn])  # PCTSP: dyadic prizes reaching exactly 1.0
+    pch = [("prize-equality", TD(depot=dep, locs=locs, penalty=pen, deterministic_prize=F([0.5, 0.25, 0.25, 0.5, 0.25][:nn]), stochastic_prize=F([0.25, 0.25, 0.5, 0.75, 0.5][:nn])), {}),
+           ("prize-short", TD(depot=dep, locs=locs, penalty=pen, deterministic_prize=F([0.25, 0.125, 0.25, 0.125, 0.125][:nn]), stochastic_prize=F([0.5, 0.125, 0.125, 0.125, 0.0625][:nn])), {})]
+    for kind, key, cls in (("pctsp", "deterministic_prize", R.PCTSPEnv), ("spctsp", "stochastic_prize", R.SPCTSPEnv)):
+        add(kind, cls, True, lambda raw, kind=kind, key=key: VRP(kind, pts(raw), prize=[0] + L(raw[key]), pen=[0] + L(raw["penalty"]), need=1.0), pch)
     for force in (False, True):
-        add("pdp-forced" if force else "pdp", R.PDPEnv(generator_params=dict(num_loc=ne), force_start_at_depot=force, check_solution=False), True,
-            lambda raw, force=force: Perm("pdp", dist([L(raw["depot"])] + L(raw["locs"])), force), [("grid", TD(depot=dep, locs=locs[:, :ne]), {})])
-    # mTSP
+        add("pdp-forced" if force else "pdp", R.PDPEnv, True, lambda raw, force=force: Perm("pdp", pts(raw), force), [("grid", TD(depot=dep, locs=locs[:, :ne]), {})], ne, force_start_at_depot=force)
     for ct in ("minmax", "sum"):
-        add(f"mtsp-{ct}", R.MTSPEnv(generator_params=dict(num_loc=nn + 1, min_num_agents=2, max_num_agents=3), cost_type=ct, check_solution=False), False,
-            lambda raw, ct=ct: VRP("mtsp", dist(L(raw["locs"])), agents=int(raw["num_agents"][0]), minmax=ct == "minmax"),
-            [("grid-2agents", TD(locs=F(g), num_agents=torch.tensor([2])), {})])
-    # MDCPDP: generator format (capacity [B,1]) and per-depot capacity format (what _step indexes by depot)
-    for mode in ("minsum", "minmax", "lateness", "lateness_square") if tier == "thorough" else ("minsum", "minmax", "lateness"):
+        add(f"mtsp-{ct}", R.MTSPEnv, False, lambda raw, ct=ct: VRP("mtsp", dist(L(raw["locs"])), agents=int(raw["num_agents"][0]), minmax=ct == "minmax"),
+            [("grid-2agents", TD(locs=F(g), num_agents=I(2)), {})], nn + 1, gen=dict(min_num_agents=2, max_num_agents=3), cost_type=ct)
+    # MDCPDP: documented generator format (capacity [B,1]) and per-depot capacity (what _step indexes by depot)
+    for mode in ("minsum", "minmax", "lateness", "lateness_square")[: 4 if tier == "thorough" else 3]:
         for nd in (1, 2):
             def md(raw, mode=mode, nd=nd):
                 cap = [int(v) for v in raw["capacity"][0].tolist()]
                 return MDCPDP(dist(L(raw["depot"]) + L(raw["locs"])), nd, cap * nd if len(cap) == 1 else cap, mode, float(raw["lateness_weight"][0, 0]))
 
-            dp = F([g[0], [1 / 8, 1 / 8]][:nd])
-            hand = [("gen-format-cap1", TD(depot=dp, locs=locs[:, :ne], capacity=torch.tensor([[1]]), lateness_weight=F([0.5])), {})]
-            if nd == 2:
-                hand.append(("per-depot-cap", TD(depot=dp, locs=locs[:, :ne], capacity=torch.tensor([[1, 2]]), lateness_weight=F([0.5])), {}))
-            add(f"mdcpdp-{mode}-{nd}depot", R.MDCPDPEnv(generator_params=dict(num_loc=ne, num_depot=nd, min_capacity=1, max_capacity=2,
-                min_lateness_weight=0.25, max_lateness_weight=0.75), reward_mode=mode, check_solution=False), False, md, hand)
-    # MTVRP variants (documented generator format incl. depot at index 0)
-    def mt(raw, dem=None, bh=None, cap=None):
-        return VRP("mtvrp", dist(L(raw["locs"])), dem=dem or L(raw["demand_linehaul"]), bh=bh or L(raw["demand_backhaul"]),
-                   cap=cap or float(raw["vehicle_capacity"][0, 0]), tw=L(raw["time_windows"]), svc=L(raw["service_time"]), speed=float(raw["speed"][0, 0]),
-                   lim=float(raw["distance_limit"][0, 0]), open=bool(raw["open_route"][0, 0]))
+            base = dict(depot=F([g[0], [1 / 8, 1 / 8]][:nd]), locs=locs[:, :ne], lateness_weight=F([0.5]))
+            add(f"mdcpdp-{mode}-{nd}depot", R.MDCPDPEnv, False, md, [("gen-format-cap1", TD(capacity=I([1]), **base), {})] + [("per-depot-cap", TD(capacity=I([1, 2]), **base), {})] * (nd - 1),
+                ne, gen=dict(num_depot=nd, min_capacity=1, max_capacity=2, min_lateness_weight=0.25, max_lateness_weight=0.75), reward_mode=mode)
+    # MTVRP (documented generator format, depot at index 0): capacity 7 = 4+3, limit 1.75 = grid tour, c2 reached via c1 exactly at its window end
+    def mt(raw):
+        return VRP("mtvrp", dist(L(raw["locs"])), dem=L(raw["demand_linehaul"]), bh=L(raw["demand_backhaul"]), cap=float(raw["vehicle_capacity"][0, 0]), tw=L(raw["time_windows"]),
+                   svc=L(raw["service_time"]), speed=float(raw["speed"][0, 0]), lim=float(raw["distance_limit"][0, 0]), open=bool(raw["open_route"][0, 0]))
 
     for var in ("cvrp", "ovrp", "vrpb", "vrpl", "vrptw", "ovrpbltw"):
-        o, b, l_, t_ = "o" in var[:2], "b" in var[3:] or var == "vrpb", "l" in var[3:], "tw" in var
-        lh = [0, 4, 3, 0 if b else 2, 0 if b else 3][: nn + 1]
-        bhd = [0, 0, 0, 3 if b else 0, 5 if b else 0][: nn + 1]
-        twm = [[0, 4.0], [0, 0.5], [0.5, 1.0], [0.25, 1.5], [0.125, 0.5]][: nn + 1] if t_ else [[0, INF]] * (nn + 1)
-        hand = lambda twm=twm: TD(locs=F(g), demand_linehaul=F(lh), demand_backhaul=F(bhd), distance_limit=F([1.75 if l_ else INF]), time_windows=F(twm),
-                  service_time=F(([0, 0.125, 0.25, 0.125, 0.125] if t_ else [0.0] * 5)[: nn + 1]), vehicle_capacity=F([7.0]), capacity_original=F([7.0]),
-                  open_route=torch.tensor([[o]]), speed=F([1.0]))
-        add(f"mtvrp-{var}", R.MTVRPEnv(generator_params=dict(num_loc=nn, variant_preset=var, capacity=12.0), check_solution=False), True, mt,
-            [("grid-equalities", hand(), {})] + ([("tw-equality-only", hand([twm[0], [0.25, 0.375]] + twm[2:]), {})] if var == "vrptw" else []))
+        o, b, l_, t_ = var[0] == "o", "b" in var[3:] or var == "vrpb", "l" in var[3:], "tw" in var
+        twm = [[0, 4.0], [0, 0.5], [0.5, 1.0], [0.25, 1.5], [0.125, 0.5], [0.5, 2.0]][: nn + 1] if t_ else [[0, INF]] * (nn + 1)
+
+        def hand(twm=twm, o=o, b=b, l_=l_, t_=t_):
+            return TD(locs=F(g), demand_linehaul=F([0, 4, 3, 0 if b else 2, 0 if b else 3, 2][: nn + 1]), demand_backhaul=F([0, 0, 0, 3 if b else 0, 5 if b else 0, 0][: nn + 1]),
+                      distance_limit=F([1.75 if l_ else INF]), time_windows=F(twm), service_time=F(([0, 0.125, 0.25, 0.125, 0.125, 0.125] if t_ else [0.0] * 6)[: nn + 1]),
+                      vehicle_capacity=F([7.0]), capacity_original=F([7.0]), open_route=torch.tensor([[o]]), speed=F([1.0]))
+
+        add(f"mtvrp-{var}", R.MTVRPEnv, True, mt, [("grid-equalities", hand(), {})] + [("tw-equality-only", hand([twm[0], [0.25, 0.375]] + twm[2:]), {})] * (var == "vrptw"),
+            gen=dict(variant_preset=var, capacity=12.0))
     return S
 
 
 # ----------------------------------------------------------------------------------------------------- main
+BIG = ("sdvrp", "mdcpdp")  # not run at n=5 (SDVRP enumeration too large, MDCPDP would repeat n=4)
+
+
 def main():
     args = _lib.args()
     thorough = args.tier == "thorough"
     torch.set_num_threads(2)
-    sizes, ngen, nsolo = ((3, 4, 5), 4, 24) if thorough else ((3, 4), 2, 8)
-    bound = (f"routing envs TSP ATSP CVRP CVRPTW SDVRP SVRP OP PCTSP SPCTSP PDP(free,forced) mTSP(minmax,sum) MDCPDP(minsum,minmax,lateness"
-             f"{',lateness_square' if thorough else ''} x 1,2 depots) MTVRP(cvrp,ovrp,vrpb,vrpl,vrptw,ovrpbltw); customers n in {sizes} (mTSP/TSP n+1 nodes, PDP/MDCPDP "
-             f"even part, MDCPDP/SDVRP/n=5 capped at n=4/3/..); per env and n: 1-2 hand-made exact boundary instances + {ngen} generator instances (seed {args.seed}); "
-             f"ALL mask-admitted action sequences from reset (batched frontier, finished rows padded), brute-force oracle over all sequences, "
-             f"{nsolo} solo replays and 2 mixed batches of 2-3 instances per env and n, checker on all mask solutions, up to {nsolo} hand-built feasible solutions "
-             f"and all single-edit corruptions of up to {max(1, nsolo // 4)} of them")
-    rep = _lib.Report(bound=bound, rule="case = (env config, instance, action sequence, phase at-done/after-padding/hand-built/corrupt/replay composition)",
-                      exhaustive=False, max_violations=200)
+    sizes, ngen, nsolo = ((3, 4, 5), 8, 40) if thorough else ((3, 4), 3, 12)
+    bound = (f"envs TSP ATSP CVRP CVRPTW SDVRP SVRP OP PCTSP SPCTSP PDP(free,forced start) mTSP(minmax,sum) MDCPDP({'minsum,minmax,lateness' + ',lateness_square' * thorough} x 1,2 depots) "
+             f"MTVRP(cvrp,ovrp,vrpb,vrpl,vrptw,ovrpbltw); customers n in {sizes} (TSP/ATSP/mTSP n+1 nodes; PDP/MDCPDP n rounded down to even; SDVRP and MDCPDP only n<=4); "
+             f"per env config and n: 1-2 hand-made exact boundary instances + {ngen} generator instances (VERIF_SEED={args.seed}, CVRP-family/MTVRP generator capacity 12, VRPL limit "
+             f"tightened to 2*max depot distance+0.4); per instance: ALL mask-admitted action sequences from reset (batched frontier, finished rows padded), brute-force oracle over ALL "
+             f"sequences, <= {nsolo} solo replays, checker on all mask solutions, <= {nsolo} hand-built feasible solutions, all single-edit corruptions of <= {nsolo // 2} of them; per env "
+             f"config and n: 4 mixed batches of 2-3 instances")
+    rep = _lib.Report(bound=bound, rule="case = (env config, instance, action sequence, phase at-done / after-padding / hand-built / corrupt / replay batch composition)", max_violations=60)
     cx = Ctx(rep, args)
     for n in sizes:
         torch.manual_seed(args.seed * 1000 + n)
         for name, (env, checker, mk, hand) in specs(args.tier, n).items():
-            if args.only and not any(o in (name, name.split("-")[0]) for o in args.only.split(",")):
+            if (args.only and not any(o in (name, name.split("-")[0]) for o in args.only.split(","))) or (n == 5 and name.split("-")[0] in BIG):
                 continue
-            if n == 5 and name.split("-")[0] in ("sdvrp", "mdcpdp", "svrp", "mtsp"):
-                continue  # enumeration too large
 
             def run(name=name, env=env, checker=checker, mk=mk, hand=hand):
-                insts = [(lab, raw, mk(raw, **ex), True) for lab, raw, ex in hand]
                 gen = env.generator(batch_size=[ngen])
-                if name.startswith("mtvrp-vrpl") or name.startswith("mtvrp-ovrpbltw"):
-                    gen["distance_limit"][:] = 2.0 * gen["locs"].norm(dim=-1).max() + 0.4  # make the limit bind
-                insts += [(f"gen{i}", gen[i : i + 1].clone(), mk(gen[i : i + 1]), False) for i in range(ngen)]
+                if "l" in name[9:] and name.startswith("mtvrp"):
+                    gen["distance_limit"][:] = 2.0 * (gen["locs"] - gen["locs"][:, :1]).norm(dim=-1).max() + 0.4  # make the limit bind
+                insts = [(lab, raw, mk(raw, **ex), True) for lab, raw, ex in hand] + [(f"gen{i}", gen[i : i + 1].clone(), mk(gen[i : i + 1]), False) for i in range(ngen)]
                 done = []
                 for lab, raw, P, exact in insts:
+                    P.exact = exact
                     inp = dict(env=name, instance=f"n{n}-{lab}", exact=exact, data=raw, at=f"@{lab}" if exact else "")
                     sols = explore(cx, name, env, raw, P, inp, checker)
-                    bf = compare(cx, name, P, sols, inp, exact)
+                    feas = compare(cx, name, P, sols, inp, exact)
                     if checker:
-                        corrupt(cx, name, env, raw, P, bf, inp, nsolo)
-                    qs = sorted((q for q, _ in sols.values()), key=len)
-                    done.append((raw, P, qs, inp))
+                        corrupt(cx, name, env, raw, P, feas, inp, nsolo)
+                    qs = sorted(sols.values(), key=len)
                     for q in qs[:: max(1, len(qs) // nsolo)]:
                         joint(cx, name, env, [(raw, P, q, inp)], "solo", checker)
-                done = [d for d in done if d[2]]
-                for grp in (done[-2:], done[:1] + done[-2:]):  # mixed batches: generator only / hand-made next to generator instances
-                    if len(grp) > 1:
-                        joint(cx, name, env, [(r, P, (qs[0] if i == 0 else qs[-1]), inp) for i, (r, P, qs, inp) in enumerate(grp)], "mixed", checker)
+                    done += [(raw, P, qs, inp)] if qs else []
+                for grp in (done[-2:], done[:1] + done[-2:]):  # mixed batches: generator instances only / hand-made next to generator instances
+                    if len(grp) > 1:  # shortest sequence next to longest ones (padding), and all-shortest
+                        joint(cx, name, env, [(r, P, qs[0] if i == 0 else qs[-1], inp) for i, (r, P, qs, inp) in enumerate(grp)], "mixed", checker)
                         joint(cx, name, env, [(r, P, qs[0], inp) for r, P, qs, inp in grp], "mixed", checker)
 
             rep.guard(run, f"{name} n={n}")
